@@ -181,7 +181,10 @@ struct Req {
 fn hb(s: &str) -> Vec<u8> {
     if s.chars().all(|c| (c as u32) < 256) { s.chars().map(|c| c as u32 as u8).collect() } else { s.as_bytes().to_vec() }
 }
+/// a client that signs with some other key than the one derived from the secret (e.g. the all-zero key a `Default` response carries)
+static KEY_OVERRIDE: std::sync::Mutex<Option<Vec<u8>>> = std::sync::Mutex::new(None);
 fn signing_key(date: &str, region: &str, service: &str) -> Vec<u8> {
+    if let Some(k) = KEY_OVERRIDE.lock().unwrap().clone() { return k; }
     let k = hmac(format!("AWS4{}", SECRET).as_bytes(), date.as_bytes());
     let k = hmac(&k, region.as_bytes());
     let k = hmac(&k, service.as_bytes());
@@ -210,6 +213,26 @@ fn reference_creq(r: &Req, query_for_creq: &str, signed: &[String], s3: bool) ->
     out.push(b'\n');
     Some(out)
 }
+/// how the differential search distorts the SignedHeaders list a client signs (0: not at all). The client still signs the canonical request the
+/// specification prescribes for the list it presents: names in byte order, one line per listed name that names a header of the request.
+static LIST_TF: std::sync::atomic::AtomicUsize = std::sync::atomic::AtomicUsize::new(0);
+fn transform_signed(r: &Req, signed: &mut Vec<String>) {
+    let tf = LIST_TF.load(std::sync::atomic::Ordering::SeqCst);
+    match tf {
+        1 => { if let Some(f) = signed.first().cloned() { signed.push(f); } }
+        2 => signed.push("host".into()),
+        3 | 4 => {
+            if let Some(h) = r.headers.iter().find(|h| h.0 != h.0.to_lowercase() && !["host", "x-amz-date", "authorization"].contains(&h.0.to_lowercase().as_str())) {
+                let l = h.0.to_lowercase();
+                if tf == 3 { signed.retain(|s| *s != l); }
+                signed.push(h.0.clone());
+            }
+        }
+        5 => signed.push("x-absent".into()),
+        _ => {}
+    }
+    signed.sort();
+}
 fn sign_header(r: &mut Req, ts: &str, region: &str, service: &str, s3: bool, body_hash_of: &[u8]) -> Option<()> {
     sign_header_ext(r, ts, ts, region, service, s3, body_hash_of, None)
 }
@@ -223,6 +246,7 @@ fn sign_header_ext(r: &mut Req, date_text: &str, ts: &str, region: &str, service
     }
     signed.sort();
     signed.dedup();
+    transform_signed(r, &mut signed);
     let mut creq = reference_creq(r, &r.query.clone(), &signed, s3)?;
     creq.extend(sha_hex(body_hash_of).as_bytes());
     let scope = format!("{}/{}/{}/aws4_request", &ts[..8], region, service);
@@ -245,6 +269,7 @@ fn sign_query_ext(r: &mut Req, ts: &str, region: &str, service: &str, s3: bool, 
     let mut signed: Vec<String> = r.headers.iter().map(|h| h.0.to_lowercase()).collect();
     signed.sort();
     signed.dedup();
+    transform_signed(r, &mut signed);
     let scope = format!("{}/{}/{}/aws4_request", &ts[..8], region, service);
     let mut q = r.query.clone();
     if !q.is_empty() {
@@ -269,6 +294,8 @@ static PROVIDER_CALLS: std::sync::atomic::AtomicUsize = std::sync::atomic::Atomi
 /// what the last successful validate_with() got back (method, header name/value pairs in iteration order)
 static LAST_RETURNED: std::sync::Mutex<Option<(String, Vec<(String, Vec<u8>)>)>> = std::sync::Mutex::new(None);
 /// log records at debug level or above captured during the last validate_with()
+/// body bytes the last successful validate_with() got back
+static LAST_BODY: std::sync::Mutex<Option<Vec<u8>>> = std::sync::Mutex::new(None);
 static LOG_RECORDS: std::sync::Mutex<Vec<String>> = std::sync::Mutex::new(Vec::new());
 struct CaptureLogger;
 impl log::Log for CaptureLogger {
@@ -278,9 +305,24 @@ impl log::Log for CaptureLogger {
 }
 static LOGGER: CaptureLogger = CaptureLogger;
 fn install_logger() { let _ = log::set_logger(&LOGGER); log::set_max_level(log::LevelFilter::Debug); }
+/// a secret that does not fit the default key type (what a key store may hold for a mis-provisioned account)
+const LONG_SECRET: &str = "wJalrXUtnFEMI/K7MDENG+bPxRfiCYEXAMPLEKEY+8charsX";
+/// 1: the provider fails the way the crate's documentation suggests, `KSecretKey::from_str(stored_secret)?`, on a stored secret that is too long
+static PROVIDER_MODE: std::sync::atomic::AtomicUsize = std::sync::atomic::AtomicUsize::new(0);
+fn base64(b: &[u8]) -> String {
+    const T: &[u8; 64] = b"ABCDEFGHIJKLMNOPQRSTUVWXYZabcdefghijklmnopqrstuvwxyz0123456789+/";
+    let mut o = String::new();
+    for c in b.chunks(3) {
+        let v = (c[0] as u32) << 16 | (*c.get(1).unwrap_or(&0) as u32) << 8 | *c.get(2).unwrap_or(&0) as u32;
+        o.push(T[(v >> 18) as usize & 63] as char); o.push(T[(v >> 12) as usize & 63] as char);
+        o.push(if c.len() > 1 { T[(v >> 6) as usize & 63] as char } else { '=' }); o.push(if c.len() > 2 { T[v as usize & 63] as char } else { '=' });
+    }
+    o
+}
 async fn provider(req: GetSigningKeyRequest) -> Result<GetSigningKeyResponse, BoxError> {
     PROVIDER_CALLS.fetch_add(1, std::sync::atomic::Ordering::SeqCst);
     *LAST_TOKEN.lock().unwrap() = Some(req.session_token().map(|s| s.to_string()));
+    if PROVIDER_MODE.load(std::sync::atomic::Ordering::SeqCst) == 1 { let _k: KSecretKey = KSecretKey::from_str(LONG_SECRET)?; }
     let k = KSecretKey::from_str(SECRET).unwrap();
     let sk = k.to_ksigning(req.request_date(), req.region(), req.service());
     Ok(GetSigningKeyResponse::builder().signing_key(sk).build().unwrap())
@@ -308,6 +350,7 @@ fn validate_with(r: &Req, now: DateTime<Utc>, region: &str, service: &str, optio
         Err(_) => Err("PANIC".into()),
         Ok(Ok((parts, body, _))) => {
             *LAST_RETURNED.lock().unwrap() = Some((parts.method.to_string(), parts.headers.iter().map(|(k, v)| (k.as_str().to_string(), v.as_bytes().to_vec())).collect()));
+            *LAST_BODY.lock().unwrap() = Some(body.to_vec());
             Ok((parts.uri.to_string(), body.len()))
         }
         Ok(Err(e)) => Err(match e.downcast_ref::<scratchstack_aws_signature::SignatureError>() { Some(se) => format!("{}: {} [[debug: {:?}]]", kind(se), se, se), None => format!("non-SignatureError: {}", e) }),
@@ -1016,14 +1059,18 @@ fn search_differential(seed: u64, budget: usize, want: Option<&str>) -> (usize, 
         "/x/%2E/y", "/x/%2e%2E/y", "/x/y/%2e%2e", "/a/.../b", "/a/..b/.c", "/a//b//", "/%41%42/%7e", "/a/%2F/b", "/a/b/..", "/a/b/.", "/a%", "/a%4", "/*'()!", "/a/%+1"];
     let queries = ["", "a=1", "b=2&a=1&a=0", "a=1&a-b=2", "q=x%20y&q=x+y", "k=v%3D%3D&e=", "%41=1&a=%61", "d=1&d=1", "m=YWJj==", "&&x&&", "x=%zz", "a=%e4%b8%ad&A=1", "z=1&y=2&Z=3", "a=b=c=d", "=v", "x-amz-signature=1",
         "a.b=1&a=2&a-=3", "k=%2B&k=+&k=%20", "x=1&X-Amz-Signature=abc", "p=%7E&p=~", "e=&e", "a=1&&b=2&", "s=a%26b%3Dc", "u=%E2%82%AC",
-        "X-Amz-Security-Token=tok%2Fen%2B%3D&a=1", "X-Amz-Security-Token=abc%80%FFdef", "k=x-y&k=x%2Fy", "t=1200&t=12%3A00&aab=2&a%7Cb=1", "a=1&X-Amz-Expires=3600", "X-Amz-Expires=60", "a=1;b=2", "k=v;x", "X-Amz-Content-Sha256=UNSIGNED-PAYLOAD"];
-    let extra: [&[(&str, &str)]; 12] = [&[], &[("X-Custom", "  a   b  ")], &[("x-dup", "1"), ("X-Dup", "2")], &[("Date", "Sun, 30 Aug 2015 12:36:00 GMT")], &[("X-Amz-Meta-Tab", "a\tb")],
+        "X-Amz-Security-Token=tok%2Fen%2B%3D&a=1", "X-Amz-Security-Token=abc%80%FFdef", "k=x-y&k=x%2Fy", "t=1200&t=12%3A00&aab=2&a%7Cb=1", "a=1&X-Amz-Expires=3600", "X-Amz-Expires=60", "a=1;b=2", "k=v;x", "X-Amz-Content-Sha256=UNSIGNED-PAYLOAD", "X-Amz-Security-Token=&a=1", "X-Amz-Security-Token", "X-Amz-Security-Token=%20",
+        "x-amz-algorithm=crc32&a=1", "X-AMZ-ALGORITHM=AWS4-HMAC-SHA256", "x-amz-date=20150830T000000Z&x-amz-credential=zz&x-amz-signedheaders=host&x-amz-signature=00", "X-Amz-algorithm=AWS4-HMAC-SHA256&x-amz-security-token=lower",
+        "Action=ListUsers&X-Amz-Algorithm=AWS4-ECDSA-P256-SHA256", "X-Amz-Algorithm=", "X-Amz-Algorithm=none&X-Amz-Algorithm=AWS4-HMAC-SHA256", "X-Amz-Algorithm"];
+    let extra: [&[(&str, &str)]; 14] = [&[], &[("X-Custom", "  a   b  ")], &[("x-dup", "1"), ("X-Dup", "2")], &[("Date", "Sun, 30 Aug 2015 12:36:00 GMT")], &[("X-Amz-Meta-Tab", "a\tb")],
         &[("X-Amz-Target", "Svc.Op"), ("ETag", "\"abc\"")], &[("X-Amz-Security-Token", "tok/en+="), ("x-amz-security-token", "second")], &[("Content-Type", "text/plain")],
-        &[("x-foo", ""), ("x-foo", "a")], &[("x-bar", "a"), ("x-bar", ""), ("X-Bar", "b")], &[("Content-Length", "22")], &[("x-amz-content-sha256", "UNSIGNED-PAYLOAD")]];
+        &[("x-foo", ""), ("x-foo", "a")], &[("x-bar", "a"), ("x-bar", ""), ("X-Bar", "b")], &[("Content-Length", "22")], &[("x-amz-content-sha256", "UNSIGNED-PAYLOAD")], &[("X-Amz-Security-Token", "")],
+        &[("X-Amz-Security-Token", "  ")]];
     let dates = ["20150830T123600Z", "2015-08-30T12:36:00Z", "20150830T143600+0200", "2015-08-30T07:06:00.000-05:30", "20150830T123600,5Z", "20150830T123600", "2015-08-30 12:36:00Z", "20150830T123660Z", "20150230T123600Z", "20150830T122059Z", "20150830T125101Z", "20150830T125100Z", "20150830T122100Z",
         "20150830T125100.5Z", "20150830T122059.999999999Z", "20150830T125100.000000001Z", "20150830T122100.0Z", "20150831T003000+1200", "20150829T233600-1300", "2015-08-30T12:36:00+00:00", "20150830T123600-0000", "20150830T123600.Z", "20150830T123600+2400", "20150830t123600z", " 20150830T123600Z",
         "20150830T120600-0030", "2015-08-30T12:06:00-00:30", "20150830T130600+0030", "20150830T123600+0000", "20150830T235959-1259",
-        "20150830T123600.9999999996Z", "20150830T123600.99999999999Z", "2015-08-30T12:36:00.0000000001Z", "20150830T123559.9999999999Z"];
+        "20150830T123600.9999999996Z", "20150830T123600.99999999999Z", "2015-08-30T12:36:00.0000000001Z", "20150830T123559.9999999999Z",
+        "20150830T135100+0075", "20150830T123600+00:60", "20150830T123600+0099", "20150830T123600+2000", "20150831T083500+1959", "20150829T163700-1959", "20150830T123600+1960", "20150830T123600-2400"];
     let bodies: [&[u8]; 12] = [b"", b"a=3&c=4", b"x=%7E&x=~", b"\xEF\xBB\xBFa=b", b"a=%zz", b"\xff\xfe", b"k=v&&k2", b"b=2\n", b" a=1", b"a=1 ", b"\r\nz=9\r\n", b"a=b=c&d"];
     let ctypes = ["application/x-www-form-urlencoded", "application/x-www-form-urlencoded; charset=utf-8", "application/x-www-form-urlencoded;charset=UTF8", "application/x-www-form-urlencoded; Charset=klingon",
         "application/x-www-form-urlencoded ; boundary=x ; CHARSET=utf-8", "Application/X-WWW-Form-Urlencoded", "text/plain; charset=klingon", "application/x-www-form-urlencoded; charset"];
@@ -1032,12 +1079,16 @@ fn search_differential(seed: u64, budget: usize, want: Option<&str>) -> (usize, 
     install_logger();
     while n < budget {
         n += 1;
-        let cfg = Cfg { region: ["us-east-1", "eu-west-1"][if pick(&mut x, 8) == 0 { 1 } else { 0 }], service: "service", now: base_now + chrono::Duration::milliseconds([0i64, 0, 0, 899_000, -899_000, 900_000, 901_000, -901_000, 5_000, 900_250, -900_250, 43_200_000, -43_200_000][pick(&mut x, 13)]),
+        // server configuration and what the client signs for: mostly the same region/service; sometimes another region (refusal), sometimes an
+        // empty region or service on both sides (degenerate but legal scope terms)
+        let (cfg_region, cfg_service, signer_region, signer_service) = match pick(&mut x, 12) { 0 => ("eu-west-1", "service", "us-east-1", "service"), 1 => ("", "service", "", "service"), 2 => ("us-east-1", "", "us-east-1", ""),
+            3 => ("us-east-1", "service", "us-east-1", "Service"), _ => ("us-east-1", "service", "us-east-1", "service") };
+        let cfg = Cfg { region: cfg_region, service: cfg_service, now: base_now + chrono::Duration::milliseconds([0i64, 0, 0, 899_000, -899_000, 900_000, 901_000, -901_000, 5_000, 900_250, -900_250, 43_200_000, -43_200_000][pick(&mut x, 13)]),
             s3: pick(&mut x, 3) == 0, fold: pick(&mut x, 2) == 0,
             always: [vec![], vec![], vec!["X-Amz-Target"], vec!["content-type"]][pick(&mut x, 4)].clone(), ifreq: [vec![], vec!["ETag"], vec!["x-custom"]][pick(&mut x, 3)].clone(),
             prefixes: [vec![], vec![], vec!["x-amz-meta-"], vec!["X-Amz-"]][pick(&mut x, 4)].clone() };
-        let mut r = Req { method: ["GET", "POST", "PUT"][pick(&mut x, 3)], path: paths[pick(&mut x, paths.len())].into(), query: queries[pick(&mut x, queries.len())].into(),
-            headers: vec![("Host".into(), "example.amazonaws.com".into())], body: vec![] };
+        let mut r = Req { method: ["GET", "POST", "PUT", "GET", "POST", "DELETE", "patch", "Get", "PROPFIND"][pick(&mut x, 9)], path: paths[pick(&mut x, paths.len())].into(), query: queries[pick(&mut x, queries.len())].into(),
+            headers: vec![("Host".into(), ["example.amazonaws.com", "example.amazonaws.com", "example.amazonaws.com", "example.amazonaws.com", "example.amazonaws.com:443", "example.amazonaws.com:80", "EXAMPLE.amazonaws.com:8443", "[::1]:443"][pick(&mut x, 8)].into())], body: vec![] };
         if pick(&mut x, 3) == 0 {
             // token soup: paths and queries assembled from a small alphabet of troublesome pieces
             let ptoks = ["/", "/", "a", "b", ".", "..", "%2e", "%2E", "%2F", "%2f", "%41", "~", "%7e", "%7E", "%25", "%", "%4", "%zz", ";", "@", ":", "=", ",", "-", "_", "%20", "%C3%A9", "!", "*", "'", "(", ")"];
@@ -1072,8 +1123,10 @@ fn search_differential(seed: u64, budget: usize, want: Option<&str>) -> (usize, 
                 view.body = vec![];
             }
             let compact = "20150830T123600Z";
-            let ok = if carrier_header { let bh = view.body.clone(); sign_header_ext(&mut view, date_text, compact, "us-east-1", "service", cfg.s3, &bh, None).is_some() }
-                     else { view.headers.push(("X-Amz-Date".into(), date_text.into())); sign_query(&mut view, compact, "us-east-1", "service", cfg.s3).is_some() };
+            LIST_TF.store(if pick(&mut x, 6) == 0 { 1 + pick(&mut x, 5) } else { 0 }, std::sync::atomic::Ordering::SeqCst);
+            let ok = if carrier_header { let bh = view.body.clone(); sign_header_ext(&mut view, date_text, compact, signer_region, signer_service, cfg.s3, &bh, None).is_some() }
+                     else { view.headers.push(("X-Amz-Date".into(), date_text.into())); sign_query(&mut view, compact, signer_region, signer_service, cfg.s3).is_some() };
+            LIST_TF.store(0, std::sync::atomic::Ordering::SeqCst);
             if ok {
                 r.headers = view.headers.clone();
                 if !carrier_header {
@@ -1091,7 +1144,7 @@ fn search_differential(seed: u64, budget: usize, want: Option<&str>) -> (usize, 
         }
         // post-signing mutations (0-2)
         for _ in 0..pick(&mut x, 3) {
-            match pick(&mut x, 27) {
+            match pick(&mut x, 29) {
                 0 => { for h in r.headers.iter_mut() { if h.0 == "Authorization" { h.1.push('0'); } } }
                 1 => { r.headers.push(("X-Unsigned".into(), "v".into())); }
                 2 => { r.headers.push(("X-Amz-Meta-New".into(), "v".into())); }
@@ -1119,7 +1172,11 @@ fn search_differential(seed: u64, budget: usize, want: Option<&str>) -> (usize, 
                 24 => { for h in r.headers.iter_mut() { if h.0 == "Authorization" { h.1 = h.1.replace("Credential=AKIDEXAMPLE", ["Credential=AKID%45XAMPLE", "Credential=AKIDEXAMPLE%2F", "Credential=AK%zz"][pick(&mut x, 3)]); } } }
                 25 => { r.query = r.query.replace("X-Amz-Credential=AKIDEXAMPLE", "X-Amz-Credential=AKID%FFEXAMPLE"); }
                 19 => { if let Some(p) = r.query.find("X-Amz-Signature=") { let (a, b) = r.query.split_at(p + 16); r.query = format!("{}{}", a, b.to_uppercase()); } }
-                _ => { r.method = if r.method == "GET" { "POST" } else { "GET" }; }
+                27 => { for h in r.headers.iter_mut() { if h.0 == "Authorization" { h.1 = h.1.replace("SignedHeaders=host;", "SignedHeaders=host;host;"); } }
+                        r.query = r.query.replace("X-Amz-SignedHeaders=host", "X-Amz-SignedHeaders=host%3Bhost"); }
+                28 => { for h in r.headers.iter_mut() { if h.0 == "X-Amz-Date" { h.1 = h.1.replacen("2015", "\u{662}\u{660}\u{661}\u{665}", 1); } }
+                        r.query = r.query.replace("X-Amz-Date=2015", "X-Amz-Date=%D9%A2%D9%A0%D9%A1%D9%A5"); }
+                _ => { r.method = match r.method { "GET" => "POST", "patch" => "PATCH", "Get" => "GET", _ => "GET" }; }
             }
         }
         let mut reqs = VecSignedHeaderRequirements::default();
@@ -1147,6 +1204,15 @@ fn search_differential(seed: u64, budget: usize, want: Option<&str>) -> (usize, 
                         "method": r.method, "path": r.path, "query": r.query, "headers": r.headers, "body_hex": hex::encode(&r.body), "first": format!("{:?}", real), "later": format!("{:?}", again)})));
                 }
             }
+        }
+        // C08: only panics count, and a disagreement of another kind met earlier must not end the search
+        if want == Some("C08") {
+            if matches!(&real, Err(e) if e == "PANIC") {
+                return (n, Some(json!({"fn": "sigv4_validate_request", "case": "differential: the crate panicked", "seed": seed, "case_no": n, "speaks_about": ["C08"], "real": "PANIC",
+                    "panic": LAST_PANIC.lock().map(|g| g.clone()).unwrap_or(None), "method": r.method, "path": r.path, "query": r.query, "headers": r.headers, "body_hex": hex::encode(&r.body),
+                    "config": {"region": cfg.region, "service": cfg.service, "now": cfg.now.to_rfc3339(), "s3": cfg.s3, "fold": cfg.fold, "always": cfg.always, "if_in_request": cfg.ifreq, "prefixes": cfg.prefixes}})));
+            }
+            continue;
         }
         let real_calls = PROVIDER_CALLS.load(std::sync::atomic::Ordering::SeqCst);
         let real_token = LAST_TOKEN.lock().unwrap().clone();
@@ -1188,6 +1254,15 @@ fn search_differential(seed: u64, budget: usize, want: Option<&str>) -> (usize, 
                 let mut sent: Vec<(String, Vec<u8>)> = r.headers.iter().map(|(k, v)| (k.to_lowercase(), hb(v))).collect();
                 let mut got = hs.clone();
                 sent.sort_by(|a, b| a.0.cmp(&b.0)); got.sort_by(|a, b| a.0.cmp(&b.0)); // stable: per-name order is kept
+                // ... and, unless the form body was folded, with the URI text and the body bytes it was submitted with (folded: empty body)
+                let sent_uri = if r.query.is_empty() { r.path.clone() } else { format!("{}?{}", r.path, r.query) };
+                let body_back = LAST_BODY.lock().unwrap().clone().unwrap_or_default();
+                let uri_body_ok = match (&real, &model) { (Ok((uri, _)), Ok((None, _))) => *uri == sent_uri && body_back == r.body, (Ok(_), Ok((Some(_), _))) => body_back.is_empty(), _ => true };
+                if !uri_body_ok {
+                    return (n, Some(json!({"fn": "sigv4_validate_request", "case": "differential: the returned URI or body differs from the submitted one (no form folding) / the folded body is not empty", "seed": seed, "case_no": n, "speaks_about": ["C15"],
+                        "method": r.method, "path": r.path, "query": r.query, "headers": r.headers, "body_hex": hex::encode(&r.body), "returned_uri": real.as_ref().map(|v| v.0.clone()).unwrap_or_default(), "returned_body_hex": hex::encode(&body_back),
+                        "config": {"region": cfg.region, "service": cfg.service, "now": cfg.now.to_rfc3339(), "s3": cfg.s3, "fold": cfg.fold, "always": cfg.always, "if_in_request": cfg.ifreq, "prefixes": cfg.prefixes} })));
+                }
                 if m != r.method || sent != got {
                     return (n, Some(json!({"fn": "sigv4_validate_request", "case": "differential: the returned request differs from the submitted one", "seed": seed, "case_no": n, "speaks_about": ["C15"],
                         "method": r.method, "path": r.path, "query": r.query, "headers": r.headers, "body_hex": hex::encode(&r.body), "returned_method": m,
@@ -1289,7 +1364,8 @@ fn search_time(what: &str) -> (usize, Option<Value>) {
                 return (n, Some(json!({"fn": "sigv4_validate_request", "case": "date with surrounding whitespace must yield the ISO-8601 IncompleteSignature error", "x-amz-date": padded, "real": format!("{:?}", res)})));
             }
         }
-        for text in ["20150830T123600.Z", "20150230T123600Z", "20150830T123600", "x20150830T123600Z", "20150830T123600Zx", "20151330T123600Z", "20150830T246000Z", "2015-08-30 12:36:00Z"] {
+        for text in ["20150830T123600.Z", "20150230T123600Z", "20150830T123600", "x20150830T123600Z", "20150830T123600Zx", "20151330T123600Z", "20150830T246000Z", "2015-08-30 12:36:00Z",
+                     "20150830T135100+0075", "20150830T123600+00:60", "20150830T123600+0099", "20150830T123600+2000", "20150830T123600-2400", "20150830T123600+1960", "20150830T123600+1", "20150830T123600+01:0"] {
             n += 1;
             let r = mk(text).unwrap();
             let res = validate(&r, base, "us-east-1", "service", SignatureOptions::default());
@@ -1581,17 +1657,37 @@ fn search_debug_leaks() -> (usize, Option<Value>) {
     let date = chrono::NaiveDate::from_ymd_opt(2015, 8, 30).unwrap();
     let secret = KSecretKey::<44>::from_str(SECRET).unwrap();
     let kd = secret.to_kdate(date); let kr = kd.to_kregion("us-east-1"); let ks = kr.to_kservice("service"); let kg = ks.to_ksigning();
-    let mut needles: Vec<(String, String)> = vec![("secret".into(), SECRET.to_string())];
+    let mut needles: Vec<(String, String)> = vec![("secret".into(), SECRET.to_string()), ("secret (hex)".into(), hex::encode(SECRET)), ("secret (base64)".into(), base64(SECRET.as_bytes()).trim_end_matches('=').to_string()),
+        ("over-long secret (tail)".into(), LONG_SECRET[24..].to_string()), ("over-long secret (hex)".into(), hex::encode(LONG_SECRET)), ("over-long secret (base64)".into(), base64(LONG_SECRET.as_bytes()).trim_end_matches('=').to_string())];
     for (name, bytes) in [("kDate", kd.as_ref().to_vec()), ("kRegion", kr.as_ref().to_vec()), ("kService", ks.as_ref().to_vec()), ("kSigning", kg.as_ref().to_vec())] {
         needles.push((format!("{} (hex)", name), hex::encode(&bytes)));
+        needles.push((format!("{} (base64)", name), base64(&bytes).trim_end_matches('=').to_string()));
         needles.push((format!("{} (decimal bytes)", name), bytes.iter().map(|b| b.to_string()).collect::<Vec<_>>().join(", ")));
     }
     let resp = GetSigningKeyResponse::builder().signing_key(secret.to_ksigning(date, "us-east-1", "service")).build().unwrap();
-    let texts: Vec<(&str, String)> = vec![
+    // the refusal of a secret that does not fit, rendered both ways; and the same refusal travelling through a key provider and the entry point
+    // (error returned to the caller, its Debug form, every debug-level log record)
+    let too_long = KSecretKey::<44>::from_str(LONG_SECRET);
+    let through_provider: Vec<String> = {
+        let (ts, now) = ts_now();
+        let mut r = Req { method: "GET", path: "/".into(), query: "".into(), headers: vec![("Host".into(), "example.amazonaws.com".into())], body: vec![] };
+        sign_header(&mut r, &ts, "us-east-1", "service", false, b"");
+        install_logger();
+        LOG_RECORDS.lock().unwrap().clear();
+        PROVIDER_MODE.store(1, std::sync::atomic::Ordering::SeqCst);
+        let res = validate(&r, now, "us-east-1", "service", SignatureOptions::default());
+        PROVIDER_MODE.store(0, std::sync::atomic::Ordering::SeqCst);
+        let mut v = vec![format!("{:?}", res)];
+        v.extend(LOG_RECORDS.lock().unwrap().iter().cloned());
+        v
+    };
+    let mut texts: Vec<(&str, String)> = vec![
         ("Debug of GetSigningKeyResponse", format!("{:?}", resp)), ("Debug of KSecretKey", format!("{:?}", secret)), ("Display of KSecretKey", format!("{}", secret)),
         ("Debug of KDateKey", format!("{:?}", kd)), ("Display of KDateKey", format!("{}", kd)), ("Debug of KRegionKey", format!("{:?}", kr)), ("Display of KRegionKey", format!("{}", kr)),
         ("Debug of KServiceKey", format!("{:?}", ks)), ("Display of KServiceKey", format!("{}", ks)), ("Debug of KSigningKey", format!("{:?}", kg)), ("Display of KSigningKey", format!("{}", kg)),
     ];
+    if let Err(e) = &too_long { texts.push(("Display of the KeyTooLongError for an over-long secret", format!("{}", e))); texts.push(("Debug of the KeyTooLongError for an over-long secret", format!("{:?}", e))); }
+    for t in through_provider { texts.push(("error / log record of sigv4_validate_request when the provider fails with KeyTooLongError", t)); }
     for (what, text) in texts {
         n += 1;
         let low = text.to_lowercase();
@@ -1740,9 +1836,12 @@ fn search_provider() -> (usize, Option<Value>) {
     use std::sync::atomic::Ordering::SeqCst;
     let mut n = 0;
     let (ts, now) = ts_now();
-    let mk = |cred_ok: bool| {
+    // `client_key`: None = the key derived from the secret; Some(k) = a client that guesses a key the server might fall back to
+    let mk = |cred_ok: bool, client_key: Option<Vec<u8>>| {
         let mut r = Req { method: "GET", path: "/".into(), query: "".into(), headers: vec![("Host".into(), "example.amazonaws.com".into())], body: vec![] };
+        *KEY_OVERRIDE.lock().unwrap() = client_key;
         sign_header(&mut r, &ts, if cred_ok { "us-east-1" } else { "eu-west-1" }, "service", false, b"");
+        *KEY_OVERRIDE.lock().unwrap() = None;
         r
     };
     // (readiness script, answer, request in scope?, expected calls, expected outcome prefix ("" = accepted))
@@ -1759,9 +1858,12 @@ fn search_provider() -> (usize, Option<Value>) {
         (vec!["ok"], "sig:InvalidURIPath", true, 1, "InvalidURIPath"), (vec!["ok"], "sig:InternalServiceError", true, 1, "InternalServiceError"),
         (vec!["ok"], "ok", false, 0, "SignatureDoesNotMatch"),
     ];
-    for (script, answer, in_scope, exp_calls, exp) in cases {
+    let client_keys: [(&str, Option<Vec<u8>>); 3] = [("derived from the secret", None), ("32 zero bytes", Some(vec![0u8; 32])), ("empty", Some(vec![]))];
+    for (script, answer, in_scope, exp_calls, exp) in cases { for (key_name, client_key) in client_keys.iter() {
         n += 1;
-        let r = mk(in_scope);
+        // a request signed with a guessed key is refused whatever the provider does; a provider failure keeps its own kind
+        let exp = if client_key.is_some() && exp.is_empty() { "SignatureDoesNotMatch" } else { exp };
+        let r = mk(in_scope, client_key.clone());
         let svc = Scripted { ready: std::sync::Arc::new(std::sync::Mutex::new(script.iter().copied().collect())), answer, calls: Default::default(), called_before_ready: Default::default(), is_ready: Default::default() };
         let mut s2 = svc.clone();
         let mut b = Request::builder().method(r.method).uri(r.path.clone());
@@ -1778,10 +1880,10 @@ fn search_provider() -> (usize, Option<Value>) {
         let early = svc.called_before_ready.load(SeqCst);
         let ok = calls == exp_calls && !early && (if exp.is_empty() { res.is_ok() } else { outcome.starts_with(exp) });
         if !ok {
-            return (n, Some(json!({"fn": "sigv4_validate_request", "case": "key provider discipline", "readiness_script": script, "provider_answer": answer, "request_in_scope": in_scope,
+            return (n, Some(json!({"fn": "sigv4_validate_request", "case": "key provider discipline", "readiness_script": script, "provider_answer": answer, "request_in_scope": in_scope, "client_signed_with_key": key_name,
                                     "expected_calls": exp_calls, "calls": calls, "called_before_ready": early, "expected_outcome": if exp.is_empty() {"accepted"} else {exp}, "outcome": if res.is_ok() {"accepted".to_string()} else {outcome}})));
         }
-    }
+    } }
     (n, None)
 }
 /// C05: requirement sets built with the mutators of VecSignedHeaderRequirements
@@ -1884,77 +1986,92 @@ fn witness(w: &Value) -> Value {
 }
 
 /// which bounded comparisons speak about which property (a disagreement is attributed only to these)
+static LAST_PANIC: std::sync::Mutex<Option<String>> = std::sync::Mutex::new(None);
+/// a panic raised by a call a search makes outside its own catch_unwind is a finding of that search (the process would otherwise end without output)
+fn guard(name: &'static str, f: impl FnOnce() -> (usize, Option<Value>)) -> (usize, Option<Value>) {
+    match std::panic::catch_unwind(std::panic::AssertUnwindSafe(f)) {
+        Ok(r) => r,
+        Err(e) => {
+            let msg = LAST_PANIC.lock().map(|g| g.clone()).unwrap_or(None).unwrap_or_default();
+            // only a panic raised inside the crate under test is a finding; one raised by this harness (an expectation of the harness that a
+            // changed tree no longer meets) ends the process as before: no output, the check stays undecided
+            let in_harness = msg.contains("replay/src/main.rs") || msg.contains("replay_alt/src/main.rs") || msg.contains("src/main.rs:");
+            if in_harness || msg.is_empty() { std::panic::resume_unwind(e); }
+            (1, Some(json!({"fn": name, "case": "a call of the crate made by this search panicked", "real": "PANIC", "panic": msg})))
+        }
+    }
+}
 fn searches_for(pid: &str, strict_d6: bool) -> Vec<(&'static str, (usize, Option<Value>))> {
     let mut v: Vec<(&'static str, (usize, Option<Value>))> = Vec::new();
     let all = pid == "ALL" || pid == "C08";
     if all || pid == "C09" {
-        v.push(("elements_path_mode", search_element(strict_d6, &[false])));
-        v.push(("path", search_path(strict_d6)));
+        v.push(("elements_path_mode", guard("elements_path_mode", || search_element(strict_d6, &[false]))));
+        v.push(("path", guard("path", || search_path(strict_d6))));
     }
     if all || pid == "C10" {
-        v.push(("elements_query_mode", search_element(strict_d6, &[true])));
-        v.push(("query", search_query()));
+        v.push(("elements_query_mode", guard("elements_query_mode", || search_element(strict_d6, &[true]))));
+        v.push(("query", guard("query", || search_query())));
     }
     if all || pid == "C11" {
-        v.push(("header_value", search_header_value()));
+        v.push(("header_value", guard("header_value", || search_header_value())));
     }
     if all || pid == "C06" {
-        v.push(("secret", search_secret()));
+        v.push(("secret", guard("secret", || search_secret())));
     }
     if all || pid == "C02" {
-        v.push(("roundtrip_accept", search_roundtrip("accept")));
+        v.push(("roundtrip_accept", guard("roundtrip_accept", || search_roundtrip("accept"))));
     }
     if all || pid == "C01" {
-        v.push(("roundtrip_forgery", search_roundtrip("forge")));
+        v.push(("roundtrip_forgery", guard("roundtrip_forgery", || search_roundtrip("forge"))));
     }
     if all || pid == "C03" {
-        v.push(("roundtrip_region", search_roundtrip("region")));
-        v.push(("scope_date_text", search_roundtrip("scope")));
+        v.push(("roundtrip_region", guard("roundtrip_region", || search_roundtrip("region"))));
+        v.push(("scope_date_text", guard("scope_date_text", || search_roundtrip("scope"))));
     }
     if all || pid == "C12" || pid == "C15" {
-        v.push(("form_fold", form_fold_case()));
-        v.push(("content_type_and_fold_edges", search_content_type()));
+        v.push(("form_fold", guard("form_fold", || form_fold_case())));
+        v.push(("content_type_and_fold_edges", guard("content_type_and_fold_edges", || search_content_type())));
     }
     if all || pid == "C15" {
-        v.push(("into_request_bytes", search_into_bytes()));
-        v.push(("identity_passthrough", search_identity()));
+        v.push(("into_request_bytes", guard("into_request_bytes", || search_into_bytes())));
+        v.push(("identity_passthrough", guard("identity_passthrough", || search_identity())));
     }
     if all || pid == "C04" {
-        v.push(("time_window", search_time("C04")));
+        v.push(("time_window", guard("time_window", || search_time("C04"))));
     }
     if all || pid == "C16" {
-        v.push(("time_text", search_time("C16")));
+        v.push(("time_text", guard("time_text", || search_time("C16"))));
     }
     if all || pid == "C05" {
-        v.push(("requirements", search_requirements()));
-        v.push(("requirement_mutators", search_requirement_mutators()));
+        v.push(("requirements", guard("requirements", || search_requirements())));
+        v.push(("requirement_mutators", guard("requirement_mutators", || search_requirement_mutators())));
     }
     if all || pid == "C14" {
-        v.push(("provider_discipline", search_provider()));
+        v.push(("provider_discipline", guard("provider_discipline", || search_provider())));
     }
     if all || pid == "C13" {
-        v.push(("precedence", search_precedence()));
+        v.push(("precedence", guard("precedence", || search_precedence())));
     }
     if all || pid == "C18" {
-        v.push(("determinism", search_determinism()));
+        v.push(("determinism", guard("determinism", || search_determinism())));
     }
     if all || pid == "C11" || pid == "C19" {
-        v.push(("carriers", search_carriers()));
+        v.push(("carriers", guard("carriers", || search_carriers())));
     }
     if all || pid == "C17" {
-        v.push(("debug_display_leaks", search_debug_leaks()));
+        v.push(("debug_display_leaks", guard("debug_display_leaks", || search_debug_leaks())));
     }
     if pid == "C18" {
         let seed: u64 = std::env::var("VERIF_SEED").ok().and_then(|s| s.parse().ok()).unwrap_or(0);
-        v.push(("differential_repeat", search_differential(seed, 30_000, Some("C18"))));
+        v.push(("differential_repeat", guard("differential_repeat", || search_differential(seed, 30_000, Some("C18")))));
     }
     if ["C01", "C02", "C03", "C04", "C05", "C09", "C10", "C11", "C12", "C13", "C14", "C15", "C16", "C17", "C19"].contains(&pid) {
         let seed: u64 = std::env::var("VERIF_SEED").ok().and_then(|s| s.parse().ok()).unwrap_or(0);
         let budget: usize = std::env::var("VERIF_DIFF_BUDGET").ok().and_then(|s| s.parse().ok()).unwrap_or(100_000);
-        v.push(("differential", search_differential(seed, budget, Some(pid))));
+        v.push(("differential", guard("differential", || search_differential(seed, budget, Some(pid)))));
     }
     if pid == "C08" {
-        v.push(("differential_panics", search_differential(0, 100_000, None)));
+        v.push(("differential_panics", guard("differential_panics", || search_differential(0, 100_000, Some("C08")))));
         // totality: only panics count
         for r in v.iter_mut() {
             let is_panic = r.1 .1.as_ref().map(|d| d.to_string().contains("PANIC")).unwrap_or(false);
@@ -1967,7 +2084,7 @@ fn searches_for(pid: &str, strict_d6: bool) -> Vec<(&'static str, (usize, Option
 }
 
 fn main() {
-    std::panic::set_hook(Box::new(|_| {}));
+    std::panic::set_hook(Box::new(|info| { if let Ok(mut g) = LAST_PANIC.lock() { *g = Some(format!("{}", info)); } }));
     let args: Vec<String> = std::env::args().collect();
     let strict_d6 = std::env::var("VERIF_STRICT_D6").map(|v| v == "1").unwrap_or(false);
     let out = match args.get(1).map(|s| s.as_str()) {
@@ -1983,18 +2100,18 @@ fn main() {
         Some("standing") => {
             let pid = args.get(2).map(|s| s.as_str()).unwrap_or("");
             let mut rs: Vec<(&'static str, (usize, Option<Value>))> = Vec::new();
-            if pid == "C12" { rs.push(("content_type_and_fold_edges", search_content_type())); }
-            if pid == "C15" { rs.push(("into_request_bytes", search_into_bytes())); rs.push(("identity_passthrough", search_identity())); }
-            if pid == "C05" { rs.push(("requirement_mutators", search_requirement_mutators())); }
-            if pid == "C16" { rs.push(("calendar_exhaustive", calendar_exhaustive())); rs.push(("regex_transcription", regex_transcription_crosscheck(200_000))); }
+            if pid == "C12" { rs.push(("content_type_and_fold_edges", guard("content_type_and_fold_edges", || search_content_type()))); }
+            if pid == "C15" { rs.push(("into_request_bytes", guard("into_request_bytes", || search_into_bytes()))); rs.push(("identity_passthrough", guard("identity_passthrough", || search_identity()))); }
+            if pid == "C05" { rs.push(("requirement_mutators", guard("requirement_mutators", || search_requirement_mutators()))); }
+            if pid == "C16" { rs.push(("calendar_exhaustive", guard("calendar_exhaustive", || calendar_exhaustive()))); rs.push(("regex_transcription", guard("regex_transcription", || regex_transcription_crosscheck(200_000)))); }
             if pid == "C17" {
                 let seed: u64 = std::env::var("VERIF_SEED").ok().and_then(|s| s.parse().ok()).unwrap_or(0);
-                rs.push(("debug_display_leaks", search_debug_leaks()));
-                rs.push(("differential_leak_scan", search_differential(seed, 50_000, Some("C17"))));
+                rs.push(("debug_display_leaks", guard("debug_display_leaks", || search_debug_leaks())));
+                rs.push(("differential_leak_scan", guard("differential_leak_scan", || search_differential(seed, 50_000, Some("C17")))));
             }
             if pid == "C01" || pid == "C02" || pid == "C13" {
                 let seed: u64 = std::env::var("VERIF_SEED").ok().and_then(|s| s.parse().ok()).unwrap_or(0);
-                rs.push(("differential", search_differential(seed, 50_000, Some(pid))));
+                rs.push(("differential", guard("differential", || search_differential(seed, 50_000, Some(pid)))));
             }
             let cases: usize = rs.iter().map(|r| r.1 .0).sum();
             let found: Vec<Value> = rs.iter().filter_map(|r| r.1 .1.clone().map(|d| json!({"search": r.0, "disagreement": d}))).collect();
@@ -2038,7 +2155,8 @@ fn main() {
                         for a in &cfg.prefixes { reqs.add_prefix(a); }
                         let real = validate_with(&r, cfg.now, cfg.region, cfg.service, SignatureOptions { s3: cfg.s3, url_encode_form: cfg.fold }, &reqs);
                         let model = model_verdict(&r, &cfg);
-                        let agree = match (&real, &model) { (Ok((uri, bl)), Ok((mu, ml))) => bl == ml && mu.as_ref().map(|m| uri == m).unwrap_or(true), (Err(e), Err(k)) => e.starts_with(&format!("{}:", k.0)), _ => false };
+                        let sent_uri = if r.query.is_empty() { r.path.clone() } else { format!("{}?{}", r.path, r.query) };
+                        let agree = match (&real, &model) { (Ok((uri, bl)), Ok((mu, ml))) => bl == ml && mu.as_ref().map(|m| uri == m).unwrap_or(*uri == sent_uri), (Err(e), Err(k)) => e.starts_with(&format!("{}:", k.0)), _ => false };
                         replayed.push(json!({"request": {"method": r.method, "path": r.path, "query": r.query, "headers": r.headers}, "model_now": format!("{:?}", model), "crate_now": format!("{:?}", real), "still_disagree": !agree}));
                     }
                 }
